@@ -26,6 +26,7 @@ OWNER = {
     "ctor_resolver_bounds": ("C08", "[[MSend; MSync]; [MSend; MSync]]"),
     "green_token_unconditional": ("C08", "true"),
     "other_marker_impls": ("C08", "0%nat"),
+    "node_kind_bounds": ("C08", "[]"),
     "rc_orderings": ("C07", "[OAcqRel; OAcqRel; OAcqRel; OAcqRel]"),
     "rc_exclusive_refs": ("C07", "0%nat"),
     "slot_exclusive_refs_outside_teardown": ("C07", "0%nat"),
@@ -88,13 +89,24 @@ def main():
     def markers(bounds):
         return "[" + "; ".join(m for m in ("MSend", "MSync") if re.search(r"\b%s\b" % m[1:], bounds)) + "]"
 
+    kind_bounds = []
     for tr in ("Send", "Sync"):
-        m = re.search(r"unsafe\s+impl\s*<\s*S\s*:\s*Syntax\s*,\s*D\s*:\s*([^>]*)>\s*%s\s+for\s+SyntaxNode\s*<\s*S\s*,\s*D\s*>\s*(where[^{]*)?\{" % tr, node)
+        m = re.search(r"unsafe\s+impl\s*<\s*S\s*:\s*Syntax([^,>]*),\s*D\s*:\s*([^>]*)>\s*%s\s+for\s+SyntaxNode\s*<\s*S\s*,\s*D\s*>\s*(where[^{]*)?\{" % tr, node)
         val = None
         if m:
-            val = markers(m.group(1) + " " + (m.group(2) or ""))
+            # (bounds on D may also be written in a where clause; bounds on S are collected separately below)
+            wh = m.group(3) or ""
+            val = markers(m.group(2) + " " + " ".join(re.findall(r"\bD\s*:\s*([^,{]*)", wh)))
+            kind_bounds.append(markers(m.group(1) + " " + " ".join(re.findall(r"\bS\s*:\s*([^,{]*)", wh))))
         facts.append(("node_%s_bounds" % tr.lower(), "list marker", val,
                       "syntax/node.rs: bounds on the data parameter D in `unsafe impl %s for SyntaxNode<S, D>`" % tr))
+    # the syntax-kind parameter S is a type-level tag (no value of S is stored in a tree): no marker bound may be put on it
+    kb = None
+    if len(kind_bounds) == 2:
+        both = sorted(set(re.findall(r"MSend|MSync", " ".join(kind_bounds))))
+        kb = "[" + "; ".join(both) + "]"
+    facts.append(("node_kind_bounds", "list marker", kb,
+                  "syntax/node.rs: marker bounds on the syntax-kind parameter S in the two `unsafe impl ... for SyntaxNode<S, D>`"))
     ctors = []
     for text in (node, resolved):
         for m in re.finditer(r"fn\s+new_root_with_resolver\s*\(([^)]*)\)", text):
